@@ -97,6 +97,8 @@ func optStr(nilp bool, s func() string) string {
 }
 
 var c25Rows = [][]byte{
+	[]byte(`{"level":"ERROR","msg":"ERROR in module x"}`),
+	[]byte(`{"a":{"b":"x y x"},"tags":["x","y"]}`),
 	[]byte(`{"a":{"b":"x y"},"level":"error","tags":["admin","dev"],"n":5}`),
 	[]byte(`{"a":{"b":"y"},"level":"warn","tags":[],"n":6}`),
 	[]byte(`{"level":"info","msg":"hello world","user":"alice"}`),
@@ -109,6 +111,7 @@ func runC25(c *ctx) {
 		"Non-trivial = tree with at least one child or condition; distinct by input text"
 	r := NewRng(c.seed, 250)
 	p := buildPools([][]byte{[]byte(`{"a":{"b":"x y"},"level":"error","tags":["admin","dev"],"n":5}`)}, tokModes[0])
+	pLeaf := []*pools{buildPools(c25Rows, tokModes[0]), buildPools(c25Rows, tokModes[1])}
 	n := 1500 * c.scale
 	for i := 0; i < n; i++ {
 		// ---- constructors
@@ -120,6 +123,16 @@ func runC25(c *ctx) {
 			bes = append(bes, genBloomExpr(r, p, 2))
 			res = append(res, genRegexExpr(r, p, 2, true))
 			pes = append(pes, genPreExpr(r, 2, nil))
+		}
+		if i%3 == 0 {
+			// arguments that all talk about one leaf of one sample row (the same token under Token and FieldToken,
+			// repeated tokens): where a matcher's per-leaf bookkeeping shows
+			le := pLeaf[(i/3)%2].leafExpr(r)
+			for j := range bes {
+				if j < len(le.Children) {
+					bes[j] = le.Children[j]
+				}
+			}
 		}
 		for _, which := range []string{"and", "or"} {
 			var gb bs.BloomExpression
@@ -160,6 +173,31 @@ func runC25(c *ctx) {
 					c.r.Add(Finding{Kind: "violation", Check: "constructor-changes-meaning", Detail: fmt.Sprintf("%s(args...) matches=%v but the nested tree {%s, children: args} matches=%v on row %s", which, g, typ, l, row),
 						Replay: map[string]any{"args": bes, "constructed": gb, "row": string(row)}})
 					break
+				}
+			}
+			// compositionality on the implementation's own matcher, default and custom tokenizer: And is true
+			// exactly when every argument is, Or when some argument is
+			for _, tm := range []tokMode{tokModes[0], tokModes[1]} {
+				for _, row := range c25Rows {
+					whole, _, e0 := bs.VerifMatchRow(row, &bs.BloomQuery{Expression: &gb}, nil, tm.fn)
+					if e0 != nil {
+						continue
+					}
+					all, some := true, false
+					for j := range bes {
+						v, _, _ := bs.VerifMatchRow(row, &bs.BloomQuery{Expression: &bes[j]}, nil, tm.fn)
+						all = all && v
+						some = some || v
+					}
+					want := all
+					if which == "or" {
+						want = some
+					}
+					if whole != want {
+						c.r.Add(Finding{Kind: "violation", Check: "tree-not-compositional", Detail: fmt.Sprintf("%s(args...) evaluates to %v on row %s under the %s tokenizer, but its arguments evaluate to all=%v any=%v", which, whole, row, tm.name, all, some),
+							Replay: map[string]any{"args": bes, "row": string(row), "tokenizer": tm.name}})
+						break
+					}
 				}
 			}
 			check("B", bloomStr(&gb), a1)
